@@ -21,6 +21,7 @@ type FaultSet struct {
 	ConnRefuse bool // CONNECT only: CONNACK with return code 3
 	NoConnAck  bool // CONNECT only: no CONNACK, link stays up
 	DialErr    bool // dial fails
+	DupAck     bool // packet processed, every response is sent twice
 	GoSilent   bool // from this packet on the broker never answers on this connection again (link stays up)
 	// OnlyTypes restricts faults to these packet types (nil = every client->broker packet).
 	OnlyTypes map[byte]bool
@@ -36,9 +37,10 @@ const (
 	fConnRefuse
 	fNoConnAck
 	fGoSilent
+	fDupAck
 )
 
-var faultNames = [...]string{"deliver", "lost+close", "write-error", "ack-lost+close", "processed-silent", "dropped-silent", "connect-refused", "no-connack", "silent-from-here"}
+var faultNames = [...]string{"deliver", "lost+close", "write-error", "ack-lost+close", "processed-silent", "dropped-silent", "connect-refused", "no-connack", "silent-from-here", "responses-duplicated"}
 
 // Delivery is one onward delivery of an application message by the broker.
 type Delivery struct {
@@ -56,6 +58,7 @@ type Broker struct {
 	Faults      FaultSet
 	KeepSession bool // false: the server forgets the session between connections
 	MethodB     bool // QoS 2 receiver method B (deliver on PUBLISH) instead of A (deliver on PUBREL)
+	PingDelay   int64 // PINGRESP is sent this many virtual ns after PINGREQ (0: at once)
 
 	// session
 	hasSession bool
@@ -167,6 +170,9 @@ func (b *Broker) faultsFor(p *Packet) []int {
 	if f.GoSilent {
 		alts = append(alts, fGoSilent)
 	}
+	if f.DupAck && p.Type != CONNECT {
+		alts = append(alts, fDupAck)
+	}
 	if p.Type == CONNECT {
 		if f.ConnRefuse {
 			alts = append(alts, fConnRefuse)
@@ -246,6 +252,15 @@ func (b *Broker) OnData(c *Conn, data []byte) error {
 		mark := len(c.in)
 		nlog := len(b.Net.Trace)
 		b.process(c, s, p)
+		if k == fDupAck {
+			dup := append([]byte(nil), c.in[mark:]...)
+			// the duplicate arrives one (virtual) second later
+			vrt.NewTimer(int64(1e9), 0, func(t *vrt.Timer) {
+				if !c.eof && !c.closed {
+					c.InjectFromTimer(t, dup)
+				}
+			})
+		}
 		if k == fAckLost || k == fSilent {
 			// drop whatever was queued as response to this packet
 			c.in = c.in[:mark]
@@ -339,7 +354,16 @@ func (b *Broker) process(c *Conn, s *bconn, p *Packet) {
 		}
 		c.Send(EncAck(UNSUBACK, p.ID), "")
 	case PINGREQ:
-		c.Send(EncPingResp(), "")
+		if b.PingDelay > 0 {
+			// a slow but healthy peer
+			vrt.NewTimer(b.PingDelay, 0, func(t *vrt.Timer) {
+				if !c.eof && !c.closed {
+					c.InjectFromTimer(t, EncPingResp())
+				}
+			})
+		} else {
+			c.Send(EncPingResp(), "")
+		}
 	case DISCONNECT:
 		c.PeerClose("DISCONNECT received")
 	case PUBACK, PUBCOMP:
